@@ -690,7 +690,7 @@ func buildUnitFromFile(c *Ctx, l *lab.Lab, f *spec.File) (*routeUnit, error) {
 		}
 		u.Dir = filepath.Join("gen", goName)
 		for _, p := range []string{"ts-client", "ts-server", "openapiv3"} {
-			res := c.TB.Run(p, req, plugin.RunOpt{})
+			res := lab.RunDecoy(c.TB, p, req, plugin.RunOpt{})
 			c.R.Eval(1)
 			if !res.OK() {
 				u.Refused[p] = fmt.Sprintf("crash=%s error=%s", res.Crash, res.Error)
